@@ -717,6 +717,16 @@ func (g *gen) expr(kind string, depth int) any {
 			// no wildcard over a map: jp returns those matches in map order, which is not fixed
 			return []any{"getall", pick(g.t, []string{"$.src.objs[*].v", "$.src.ints[*]", "$.src.objs[*].k", "$.src.nothing[*]", "$.src.mixed[1:3]", "$.src.deep.l[*]"}, "allpath")}
 		case 5:
+			// the function works on a local value per element: bodies that keep something in a
+			// scratch member and read it back, some under another result key
+			switch rapid.IntRange(0, 4).Draw(g.t, "eachbody") {
+			case 0:
+				return []any{"each", g.arg("list", depth-1), []any{"asm", []any{"set", "@.asm", []any{"get", "@.prev"}}, []any{"set", "@.prev", "@.src"}}}
+			case 1:
+				return []any{"each", g.arg("list", depth-1), []any{"asm", []any{"set", "@.out", []any{"get", "@.seen"}}, []any{"set", "@.seen", true}}, "out"}
+			case 2:
+				return []any{"each", g.arg("list", depth-1), []any{"set", "@.asm", []any{"list", "@.src", []any{"get", "@.tmp"}}}}
+			}
 			return []any{"each", g.arg("list", depth-1), []any{"set", "@.asm", g.arg("any", depth-1)}}
 		default:
 			return g.expr("strlist", depth)
